@@ -87,7 +87,7 @@ claimed = {
  'C07': dict(level='proof',
    text=("Contract-based deductive proof for UNSUBSCRIBE and for the codec and helper functions of SUBSCRIBE; the SUBSCRIBE handler itself is NOT verified. processUnsubscribe hands every filter of the request to the topic store, in request order (ghost log of the store calls), before the UNSUBACK is written, "
          "and writes exactly one UNSUBACK with the request's packet identifier unless the write fails. SubackMessage.AddReturnCodes appends exactly the given codes in order and fails only for a code outside {0,1,2,0x80}; the filter lists of SUBSCRIBE/UNSUBSCRIBE decode to exactly the filters on the wire, in order (C03/C04 contracts, part of this check); "
-         "the store wrapper returns min(requested, MaxQosAllowed) or 0x80 with an error. processSubscribe is under a TRUSTED contract (three nested loops whose freshly allocated byte arrays the generator's loop havoc cannot frame; DESIGN.md §10): "
+         "the store wrapper returns min(requested, MaxQosAllowed) or 0x80 with an error. processSubscribe is under a TRUSTED contract pinned to its current body (three nested loops whose freshly allocated byte arrays the generator's loop havoc cannot frame; DESIGN.md §10) and is covered instead by a BOUNDED stand-in, labelled bounded and not counted as proved: the real function is run against a scripted topic store for every request of 1..4 filters over 4 filter names (one rejected), QoS 0..2 each and store maximum 0..2 (67860 cases), checking one SUBACK, same id, one code per filter in request order (0x80 / min(requested, max)) and one store call per filter in order; "
          "a partial check of it found that a rejected filter made the request vanish without SUBACK - fixed - but 'one SUBACK, codes in request order, subscription effective before the SUBACK' is not machine-checked."),
    design='DESIGN.md §4 C07', technique='ghost-log contracts and call-site obligations over go/ssa, z3/cvc5 (govc); SUBSCRIBE handler trusted'),
  'C11': dict(level='proof',
@@ -121,7 +121,7 @@ checks = []
 for pid, c in claimed.items():
     checks.append({
         'property_id': pid,
-        'quick_cmd': '/verif/bin/govc check -p %s -tier quick' % pid,
+        'quick_cmd': '/verif/tools/check.sh %s quick' % pid,
         'thorough_cmd': '/verif/tools/thorough.sh %s' % pid,
         'evidence_file': '/verif/evidence/%s.json' % pid,
         'replay_cmd_template': '/verif/bin/govc replay {path}',
